@@ -26,6 +26,8 @@ def rand_reward(rng, pops, n, lc):
 def run(res, replay=None):
     # structural tie of the moment assembly (accumulate: centring, permutations; moment: windows) of phasegen/distributions.py: translate the CURRENT source and re-check proofs/GenMomentsEquiv.v
     import translate_step; (res.proof is not None) and translate_step.run(res.proof, pid=res.pid, tie='moments')
+    # pinned reading of the routes of class Coalescent (which distribution / state space / reward answers which request): re-check the CURRENT source against it and proofs/GenCoalescentEquiv.v
+    import translate_step; (res.proof is not None) and translate_step.run(res.proof, pid=res.pid, tie='coalescent')
     # structural tie of the numeric loops (_accumulate incl. the sort of the end times and its inverse permutation; cdf): translate the CURRENT source and re-check proofs/GenLoopsEquiv.v
     import translate_step; (res.proof is not None) and translate_step.run(res.proof, pid=res.pid, tie='loops')
     # structural tie of phasegen/rewards.py: translate the CURRENT source and re-check proofs/GenRewardsEquiv.v against it
